@@ -362,7 +362,7 @@ def run_shard(module_name, sub_name, shard, tier, seed):
                     except (_Violation, _BudgetStop):
                         break
             if state['last_fail'] is None:
-                phases = [Phase.generate, Phase.target, Phase.shrink]
+                phases = [Phase.generate, Phase.target] + ([] if os.environ.get('VERIF_NO_SHRINK') == '1' else [Phase.shrink])
                 test = given(sub.strategy())(lambda case: one(case))
                 test = settings(max_examples=n, database=None, deadline=None, derandomize=False,
                                 report_multiple_bugs=False, phases=phases,
@@ -535,6 +535,8 @@ def main(argv=None):
     replay_results = []
     harness_errors = []
     kwargs = {'max_tasks_per_child': 1} if sys.version_info >= (3, 11) else {}
+    if args.fail_fast:
+        os.environ['VERIF_NO_SHRINK'] = '1'          # sensitivity runs: the unshrunk counterexample is enough
     ex = cf.ProcessPoolExecutor(max_workers=args.workers, mp_context=ctx, **kwargs)
     if True:
         futs = []
